@@ -11,6 +11,7 @@ R4  trailing data / second stream / stream padding: `is_eof` false leads only
     to Err and dominates the only Ok result of the stream decoder.
 """
 from engine import flow, report
+from rules import pat
 from engine.flow import Terms, cfg, short
 from rules.common import TRUSTED
 
@@ -295,6 +296,55 @@ def rule_reserved(facts):
             found_call = True
             r.sites += 1
             a = tm.of_operand(t.args[0])
+            # a parser of the 16-bit stream flags: decided by evaluation over the flag values, whatever the spelling - the id table
+            # is reached exactly when the first byte is null, and then with the second byte unmodified
+            u16args = [i for i in range(1, b.arg_count + 1) if b.locals[i].ty.k == "uint" and b.locals[i].ty.bits == 16]
+            if len(u16args) == 1 and b.arg_count == 1:
+                from engine.flow import PosTerms
+                ptb = PosTerms(b)
+                oks_b = [o for o, k in flow.ret_sources(b).items() if k in ("ok", "any", "other")]
+                verdict = None
+                try:
+                    for hi in (0, 1, 2, 0x10, 0x80, 0xFF):
+                        for lo in range(256):
+                            v = (hi << 8) | lo
+                            def lf(q, v=v):
+                                if q[0] == "arg":
+                                    return v
+                                if q[0] == "index" and flow.term_has(q[1], lambda z: z[0] == "call" and "to_be_bytes" in z[1]) and \
+                                        not flow.term_has(q[1], lambda z: z[0] in ("index",)):
+                                    i_ = q[2][1] if isinstance(q[2], tuple) else q[2]
+                                    if i_ in (0, 1):
+                                        return (v >> (8 * (1 - i_))) & 0xFF
+                                if q[0] == "index" and flow.term_has(q[1], lambda z: z[0] == "call" and "to_le_bytes" in z[1]):
+                                    i_ = q[2][1] if isinstance(q[2], tuple) else q[2]
+                                    if i_ in (0, 1):
+                                        return (v >> (8 * i_)) & 0xFF
+                                raise pat.NotEvaluable(q)
+                            got = pat.reached_under(b, ptb, 0, lf, {blk.idx} | set(oks_b))
+                            if hi != 0 and got:
+                                verdict = "flags 0x%04x (first byte not null) are not refused before the check-id lookup" % v
+                            elif hi == 0 and blk.idx not in got and (got or lo in (0x00, 0x01, 0x04, 0x0A)):
+                                verdict = "flags 0x%04x do not reach the check-id lookup" % v
+                            elif hi == 0 and blk.idx not in got:
+                                pass        # refused before the lookup: the id is not one of the format's anyway
+                            elif hi == 0 and pat.eval_term(ptb.at(blk.idx, None).of_operand(t.args[0]), lf) != lo:
+                                verdict = "for flags 0x%04x the check-id lookup is given 0x%02x: reserved bits of the second byte are not refused" % (
+                                    v, pat.eval_term(ptb.at(blk.idx, None).of_operand(t.args[0]), lf))
+                            if verdict:
+                                break
+                        if verdict:
+                            break
+                except (pat.NotEvaluable, pat.Overflow):
+                    verdict = None
+                else:
+                    found_stream = True
+                    where = "%s (%s)" % (short(b.name), t.span)
+                    if verdict:
+                        r.bad("%s|flags-eval" % short(b.name), verdict, where)
+                    else:
+                        r.ok("evaluation", {"fn": short(b.name), "stream flags": "first byte null or Err; id = second byte (1536 flag values)"})
+                    continue
             lossy = flow.term_has(a, lambda q: q[0] in ("BitAnd", "Shr", "Shl", "Rem", "Div", "BitOr", "BitXor",
                                                         "Sub", "Add", "Mul"))
             where = "%s (%s)" % (short(b.name), t.span)
